@@ -469,7 +469,15 @@ func (env *Env) elabCall(e *SCall) Val {
 					elabFail("typeId(T)")
 				}
 				name := exprString(e.Args[0])
+				if l, ok := e.Args[0].(*SLit); ok {
+					name = l.Val
+				}
+				isPtr := strings.HasPrefix(name, "*")
+				name = strings.TrimPrefix(name, "*")
 				t := ex.lookupGoType(env.pkg, name)
+				if t != nil && isPtr {
+					t = types.NewPointer(t)
+				}
 				if t == nil {
 					elabFail("typeId: unknown type %s", name)
 				}
@@ -478,6 +486,16 @@ func (env *Env) elabCall(e *SCall) Val {
 				a := args()
 				ex.declare("(declare-fun errIs (Ref Ref) Bool)")
 				return Val{T: app("errIs", a[0].T, a[1].T), S: SBool}
+			case "first", "second", "third":
+				if len(e.Args) != 1 {
+					elabFail("%s(call)", id.Name)
+				}
+				idx := map[string]int{"first": 0, "second": 1, "third": 2}[id.Name]
+				vals := env.elabCallMulti(e.Args[0])
+				if idx >= len(vals) {
+					elabFail("%s: call has %d results", id.Name, len(vals))
+				}
+				return vals[idx]
 			case "min":
 				a := args()
 				return Val{T: ite(app("<=", a[0].T, a[1].T), a[0].T, a[1].T), S: SInt}
@@ -535,6 +553,13 @@ func (env *Env) elabCall(e *SCall) Val {
 			elabFail("method call %s on value of unknown Go type", exprString(e))
 		}
 		obj, _, _ := types.LookupFieldOrMethod(recv.GoT, true, env.pkg, sel.Name)
+		if fld, isVar := obj.(*types.Var); isVar {
+			// a function-typed field declared as a pure callback of the function under verification
+			if sig, isSig := fld.Type().Underlying().(*types.Signature); isSig && ex.pureCallbackField(fld.Name()) {
+				fv := ex.fieldGet(env.cur, recv, sel.Name)
+				return ex.callbackApp(fv, fld.Name(), sig, args())[0]
+			}
+		}
 		fn, ok := obj.(*types.Func)
 		if !ok {
 			// field of func type? not supported
@@ -780,4 +805,112 @@ func (ex *Exec) typesPkgFor(path string, dflt *types.Package) *types.Package {
 		return p
 	}
 	return dflt
+}
+
+// elabCallMulti elaborates a call to a pure function and returns all its results.
+func (env *Env) elabCallMulti(e SExpr) []Val {
+	ex := env.ex
+	c, ok := e.(*SCall)
+	if !ok {
+		elabFail("call expected in %s", exprString(e))
+	}
+	var args []Val
+	for _, a := range c.Args {
+		args = append(args, env.elab(a))
+	}
+	switch f := c.Fun.(type) {
+	case *SIdent:
+		var fn *types.Func
+		if env.pkg != nil {
+			fn, _ = env.pkg.Scope().Lookup(f.Name).(*types.Func)
+			if fn == nil {
+				for _, imp := range env.pkg.Imports() {
+					if o, ok := imp.Scope().Lookup(f.Name).(*types.Func); ok {
+						if fc := ex.cs.Funcs[funcKey(o)]; fc != nil && fc.Pure {
+							fn = o
+						}
+					}
+				}
+			}
+		}
+		if fn == nil {
+			elabFail("unknown function %s", f.Name)
+		}
+		fc := ex.cs.Funcs[funcKey(fn)]
+		if fc == nil || !fc.Pure {
+			elabFail("%s has no pure contract", f.Name)
+		}
+		return ex.pureCall(env.cur, fc, fn, nil, args)
+	case *SSel:
+		if id, ok := f.X.(*SIdent); ok {
+			if _, bound := env.names[id.Name]; !bound {
+				if p := ex.importedPkg(env.pkg, id.Name); p != nil {
+					fn, ok := p.Scope().Lookup(f.Name).(*types.Func)
+					if !ok {
+						elabFail("%s.%s is not a function", id.Name, f.Name)
+					}
+					fc := ex.cs.Funcs[funcKey(fn)]
+					if fc == nil || !fc.Pure {
+						elabFail("%s.%s has no pure contract", id.Name, f.Name)
+					}
+					return ex.pureCall(env.cur, fc, fn, nil, args)
+				}
+			}
+		}
+		recv := env.elab(f.X)
+		if recv.GoT == nil {
+			elabFail("method call on value of unknown Go type")
+		}
+		obj, _, _ := types.LookupFieldOrMethod(recv.GoT, true, env.pkg, f.Name)
+		if fld, isVar := obj.(*types.Var); isVar {
+			if sig, isSig := fld.Type().Underlying().(*types.Signature); isSig && ex.pureCallbackField(fld.Name()) {
+				fv := ex.fieldGet(env.cur, recv, f.Name)
+				return ex.callbackApp(fv, fld.Name(), sig, args)
+			}
+		}
+		fn, ok := obj.(*types.Func)
+		if !ok {
+			elabFail("no method %s on %s", f.Name, recv.GoT)
+		}
+		fc := ex.cs.Funcs[funcKey(fn)]
+		if fc == nil || !fc.Pure {
+			elabFail("%s has no pure contract", funcKey(fn))
+		}
+		return ex.pureCall(env.cur, fc, fn, &recv, args)
+	}
+	elabFail("cannot call %s", exprString(c.Fun))
+	return nil
+}
+
+func (ex *Exec) pureCallbackField(name string) bool {
+	if ex.fc == nil {
+		return false
+	}
+	for _, n := range ex.fc.PureCallbacks {
+		if n == name {
+			return true
+		}
+	}
+	return false
+}
+
+// callbackApp models a call through a function-typed field declared `callback pure`:
+// an uninterpreted function of the function value and the arguments.
+func (ex *Exec) callbackApp(fv Val, name string, sig *types.Signature, args []Val) []Val {
+	sorts := []string{"Ref"}
+	terms := []string{fv.T}
+	for _, a := range args {
+		sorts = append(sorts, a.S.Name)
+		terms = append(terms, a.T)
+	}
+	var out []Val
+	for i := 0; i < sig.Results().Len(); i++ {
+		rt := sig.Results().At(i).Type()
+		rs := ex.sortOf(rt)
+		fn := fmt.Sprintf("cb_%s_%d", sanitize(name), i)
+		ex.declare(fmt.Sprintf("(declare-fun %s (%s) %s)", fn, strings.Join(sorts, " "), rs.Name))
+		out = append(out, Val{T: app(fn, terms...), S: rs, GoT: rt})
+	}
+	ex.assumptions["function-typed field "+name+" is modelled as a deterministic function of its arguments (callback pure)"] = true
+	return out
 }
